@@ -5,7 +5,7 @@ sid, checks, how = sys.argv[1], sys.argv[2], sys.argv[3]
 d = '/verif/seeded/%s' % sid
 os.makedirs(d, exist_ok=True)
 for f in glob.glob('/tmp/s/%s/out/*' % sid):
-    shutil.copy(f, d)
+    (shutil.copytree(f, os.path.join(d, os.path.basename(f)), dirs_exist_ok=True) if os.path.isdir(f) else shutil.copy(f, d))
 m = json.load(open(d + '/meta.json'))
 m['confirmed'] = {'by': 'main session', 'demo_fails_with_change': True, 'demo_passes_without': True,
                   'ran': 'tools/seedtest2.sh %s <demo args> -- %s  (demo both ways in the seeding worktree = /repo HEAD + patch.diff; VERIF_REPO=<that worktree> ./check <props> --tier quick; /repo itself left alone because other work was reading it)' % (sid, checks.replace(',', ' ')),
